@@ -134,15 +134,14 @@ func c01SetConfig(c *Ctx, p *Prog) {
 	}
 }
 
-
 const bfPkg = modPath + "/benchfmt"
 
 type c01env struct {
-	c                              *Ctx
-	p                              *Prog
-	fileConfigF, orderF            *types.Var
-	cfgFileF, cfgValueF, cfgKeyF   *types.Var
-	resConfigF                     *types.Var
+	c                            *Ctx
+	p                            *Prog
+	fileConfigF, orderF          *types.Var
+	cfgFileF, cfgValueF, cfgKeyF *types.Var
+	resConfigF                   *types.Var
 }
 
 func (ev *c01env) interp() *e6Interp {
